@@ -52,7 +52,12 @@ def run(prop, tier, seed, t0, H, second=None, second_engine=None):
             pf, pstats = W.oracle_c11(pairs)
             ofails += pf
             extra["restart_pairs"] = pstats
-            c2, n2 = W.correspondence([w for p in pairs for w in p])
+            # restarts before EVERY command of a base run (thorough: also one run per single position), Props/C11 over histories
+            from . import c11hist
+            hf, hstats, hworlds = c11hist.run([p[0] for p in pairs], tier, rng, seed)
+            ofails += hf
+            extra["restart_every_position"] = hstats
+            c2, n2 = W.correspondence([w for p in pairs for w in p] + hworlds)
             corr += c2; compared += n2
         if prop == "C08":
             # the routing half at the storage level: the by-nostr-id index of BOTH backends under rotations onto
@@ -80,6 +85,9 @@ def run(prop, tier, seed, t0, H, second=None, second_engine=None):
                     "correspondence_disagreements": len(corr), "oracle_failures": len(mine),
                     "samples": [{"world": worlds[0].id, "meta": getattr(worlds[0], "meta", {}), "commands": [c for c, _, _ in worlds[0].trace][:40]}],
                     "generated_facts": facts, **extra}
+        if "restart_every_position" in extra:
+            coverage["evaluations"] += extra["restart_every_position"]["runs"] + extra["restart_pairs"]["pairs"] * 2
+            coverage["traces_validated_against_impl"] = coverage["evaluations"]
         if prop == "C02":
             # reordering inside / outside the configured windows (Props/C02Win.lean, msgwin engine)
             from . import c02win
